@@ -107,8 +107,10 @@ class JiraRenderer(BaseRenderer):
 
     def render_quote(self, token):
         self.lastChildOfQuotes.append(token.children[-1])
-        inner = self.render_inner(token)
-        del (self.lastChildOfQuotes[-1])
+        try:
+            inner = self.render_inner(token)
+        finally:
+            del (self.lastChildOfQuotes[-1])
 
         if len(token.children) == 1 and isinstance(token.children[0], block_token.Paragraph):
             template = 'bq. {inner}' + self._block_eol(token)[0:-1]
@@ -147,10 +149,11 @@ class JiraRenderer(BaseRenderer):
             else:
                 self.listTokens.append('*')
 
-        rendered = [self.render(child) for child in token.children]
-
-        if isinstance(token, block_token.List):
-            del (self.listTokens[-1])
+        try:
+            rendered = [self.render(child) for child in token.children]
+        finally:
+            if isinstance(token, block_token.List):
+                del (self.listTokens[-1])
 
         return ''.join(rendered)
 
